@@ -4,7 +4,7 @@ PROP = {
     "title": "Syntax trees are lossless for every input text",
     "engine": "E1",
     "level": "exploration",
-    "technique": "runtime monitor: losslessness/tiling oracle over generated and mutated inputs (+ Miri shard in thorough)",
+    "technique": "runtime monitor: losslessness/tiling oracle over generated and mutated inputs; thorough adds Miri shards (cargo +nightly miri run of harness-miri: parser + rowan trees + kind transmutes interpreted for undefined behaviour while the same oracle runs)",
     "design_ref": "§4 C01",
     "rule": "cases = fragment soup / mutated corpus files / corpus verbatim / lossy random bytes / hand-picked recovery seeds x 8 language levels x doc on/off x shared NodeCache on/off; "
             "distinct = FNV of (text, level, doc); non-trivial = the produced tree has >= 8 tokens",
@@ -15,3 +15,7 @@ PROP = {
     "level_text": "Every generated input is parsed by the real LuaParser and an oracle checks byte-exact text equality and token tiling; ~400k (quick) to ~10M (thorough) inputs over all language levels. Exploration, not proof: it shows absence of loss on the inputs produced.",
     "level_note": "Trusts rowan's text()/text_range() accessors and the harness oracle; inputs limited to UTF-8 <= 64 KiB.",
 }
+
+from miri_shard import custom_for  # noqa: E402
+
+custom = custom_for("C01")
